@@ -69,6 +69,7 @@ func (w *verifWorld) add(m Manager, i int, ready bool) {
 // capacity 1: the second may overflow), executions fail or succeed, the
 // poller retries; workers, poller body and the adding thread interleave.
 func VerifConcurrentAddFailRetry() {
+	verif.Option("panic_is_violation", 1) // a panic must never end a path silently
 	verif.Option("max_preempt", verif.Bound("preemptions", 0, 1))
 	// (drawn before any worker thread exists: natively the replay values are
 	// read from one table that is not safe for concurrent use)
@@ -98,6 +99,7 @@ func VerifConcurrentAddFailRetry() {
 // execution. (Process deaths at every store / executor call are explored by
 // the single-threaded harness in sequential.go.)
 func VerifConcurrentRestart() {
+	verif.Option("panic_is_violation", 1) // a panic must never end a path silently
 	verif.Option("max_preempt", verif.Bound("preemptions", 0, 1))
 	verif.Option("max_threads", 24)
 	w := &verifWorld{changed: make(chan struct{}, 64), symbolic: verif.Symbolic()}
